@@ -477,6 +477,7 @@ pub fn run_loop(cfg: &RunCfg, trace_on: bool, full: bool, monitor: Monitor) -> R
     let mut demanded_fail = 0;
     // initial snapshot must equal the initial model (a wrong union is visible before any op)
     let ops = cfg.ops.clone();
+    let snap_every: usize = cfg.extra.get("snap_every").and_then(|v| v.parse().ok()).unwrap_or(1);
     for i in 0..=ops.len() {
         let before = cx.world.clone();
         let (op, want, got) = if i == 0 {
@@ -504,7 +505,14 @@ pub fn run_loop(cfg: &RunCfg, trace_on: bool, full: bool, monitor: Monitor) -> R
                 cx.trace(t);
             }
         }
-        let snaps: Vec<Snap> = (0..cx.built.len()).map(|f| cx.snap(f, full, full)).collect();
+        // sparse observation (contract checks only): the simulator's own snapshot is a burst of
+        // observers - state that only goes wrong when NOTHING looks between two calls needs runs
+        // in which the snapshot is skipped for a few steps
+        let do_snap = snap_every <= 1 || i == 0 || i == ops.len() || i % snap_every == 0;
+        if !do_snap {
+            cx.out.count("probe.sparse.steps_without_snapshot");
+        }
+        let snaps: Vec<Snap> = if do_snap { (0..cx.built.len()).map(|f| cx.snap(f, full, full)).collect() } else { vec![] };
         for s in &snaps {
             cx.log(s.hash());
         }
